@@ -238,7 +238,9 @@ def require_string(E, p, node, what, bound=None):
     def no_nul_before(j):
         return z3.Implies(z3.And(0 <= j, j < L), elem(E, blk, shape, start + j) != 0)
     E.add_universal(no_nul_before, "stroff")
-    E.instantiate(L, "stroff")
+    E.add_universal(lambda i: no_nul_before(i - start), "stroff")      # the same fact for i an index of the array
+    E.instantiate(L, "stroff")                 # relative to the string's start ...
+    E.instantiate(start + L, "stroff")         # ... and as an index of the array (contracts state facts in either form)
     memo[key] = L
     return L, (blk, shape, start, end)
 
@@ -262,7 +264,9 @@ def ext_strchr(E, args, node):
         return z3.And(z3.Implies(z3.And(z3.Not(isnull), 0 <= j, j < k), elem(E, blk, shape, start + j) != cz),
                       z3.Implies(z3.And(isnull, 0 <= j, j <= L), elem(E, blk, shape, start + j) != cz))
     E.add_universal(first, "stroff")
+    E.add_universal(lambda i: first(i - start), "stroff")              # the same fact for i an index of the array
     E.instantiate(k, "stroff")
+    E.instantiate(start + k, "stroff")
     last = s.steps[-1][1]
     return Ptr(s.block, s.steps[:-1] + (("i", V(zt(last) + k, None, None)),), s.ctype, isnull, s.view)
 
@@ -291,6 +295,8 @@ def ext_strncmp(E, args, node):
             return z3.Implies(z3.And(ret.t == 0, 0 <= j, j < zt(n), j <= La), ea(j) == eb(j))
         E.add_universal(equal_prefix, "stroff")
     E.instantiate(w, "stroff")
+    E.instantiate(astart + w, "stroff")
+    E.instantiate(bstart + w, "stroff")
     return ret
 
 
